@@ -74,3 +74,11 @@ Theorem C09_lost_update_refuted_with_id_reset :
     map l_resp (w_log w) = [RInc 1%Z; RInc 2%Z; RInc 2%Z].
 Proof. exact lost_update_with_id_reset. Qed.
 Print Assumptions C09_lost_update_refuted_with_id_reset.
+
+(* Consequences of the sequential meaning used as order-independent oracle clauses by the
+   harness: a matching shift only hands out records satisfying its filter (and removes what
+   it hands out); a rejected conditional increment changes nothing. *)
+Theorem C09_shiftm_only_matching : forall s thr s' v,
+  seq_step s (OShiftM thr) = (s', RShiftM (Some v)) -> shiftm_match thr (Some v) = true /\ s = Some v /\ s' = None.
+Proof. exact shiftm_returns_matching. Qed.
+Print Assumptions C09_shiftm_only_matching.
